@@ -250,6 +250,44 @@ fn main() {
             }
         }
     }
+    // phase 5: long word sequences (lengths around powers of two): a is a repeated word pattern, b is
+    // a with one word replaced / removed / inserted at the start, in the middle or at the end, or the
+    // pattern shifted by one
+    {
+        let lens = tu_verif::enumerate::threshold_lengths(run.pick(8, 10));
+        let pats: [&[&str]; 3] = [&["a", "b"], &["a", "A", "c"], &["ab", "a", "b", "Ab"]];
+        run.bounds.insert("long_phase".into(), json!(format!("word counts {lens:?} x 3 repeated word patterns x 11 variants of the second text x ignore_case, single-space layout")));
+        let base5 = base4 + seqs4.len();
+        let mut unit5 = base5;
+        for n in lens {
+            for pat in pats {
+                unit5 += 1;
+                if !run.unit((unit5 - 1) as u64) {
+                    continue;
+                }
+                let words: Vec<&str> = (0..n).map(|i| pat[i % pat.len()]).collect();
+                let a = words.join(" ");
+                let mut bs: Vec<String> = vec![a.clone(), (1..=n).map(|i| pat[i % pat.len()]).collect::<Vec<_>>().join(" ")];
+                for pos in [0, n / 2, n - 1] {
+                    let mut r = words.clone();
+                    r[pos] = "x";
+                    bs.push(r.join(" "));
+                    let mut d = words.clone();
+                    d.remove(pos);
+                    bs.push(d.join(" "));
+                    let mut i = words.clone();
+                    i.insert(pos, "x");
+                    bs.push(i.join(" "));
+                }
+                for b in &bs {
+                    for ic in [false, true] {
+                        check_texts(&mut run, &a, b, ic);
+                        check_texts(&mut run, b, &a, ic);
+                    }
+                }
+            }
+        }
+    }
     let w2 = ["a", "ab", "aB", "b", "bab", "ba"];
     let seqs2 = sequences(w2.len(), run.pick(3, 4));
     let texts2: Vec<String> = seqs2.iter().map(|s| s.iter().map(|i| w2[*i]).collect::<Vec<_>>().join(" ")).collect();
